@@ -28,6 +28,7 @@ Proof.
   - apply inv_crash; assumption.
   - split; [apply facts_install; assumption|].
     eapply (xinv_install V0 V0_nodup); eassumption.
+  - apply (inv_trunc V0); assumption.
 Qed.
 
 Lemma dinv_step s s' : inv V0 s -> dinv s -> step V0 s s' -> dinv s'.
@@ -48,6 +49,7 @@ Proof.
   - apply dinv_flush; assumption.
   - apply dinv_crash; assumption.
   - apply dinv_install; [assumption | exact (proj2 I') | lia].
+  - apply dinv_trunc; assumption.
 Qed.
 
 Theorem reachable_inv2 s : Reachable V0 s -> inv V0 s /\ dinv s.
